@@ -302,6 +302,73 @@ def oracle_bounded(case):
                 sample={"pool": [case["max"], case["min"], case["queue"], case["timeout"]], "holds": case["holds"], "batch": case["batch"]})
 
 
+@st.composite
+def prestart_cases(draw):
+    mx = draw(st.integers(1, 3))
+    kind = draw(st.sampled_from(["random", "preempt"]))
+    if kind == "random":
+        spec = ("random", draw(st.integers(0, 2 ** 32)), draw(st.sampled_from([0.0, 0.6])))
+    else:
+        spec = ("preempt", draw(st.lists(st.tuples(st.integers(1, 60), st.integers(0, 3)), max_size=3)), draw(st.integers(0, 3)))
+    return {"max": mx, "min": draw(st.integers(0, mx)), "before": draw(st.integers(0, mx + 3)), "idle": draw(st.booleans()),
+            "after": draw(st.integers(1, 3)), "restart": draw(st.booleans()), "sched": spec, "version": draw(st.sampled_from([1.0, 2.0]))}
+
+
+def oracle_prestart(case):
+    """Notifications that arrive while the notification pool is not (yet, or no longer) running wait in its queue and
+    are executed once it runs; whatever arrived before, a notification that arrives later - also after the workers
+    have gone idle and retired - is executed as well"""
+    from vlib import detsched as D
+    from vlib import poolprog
+    import jsonrpclib.SimpleJSONRPCServer as S
+    from jsonrpclib.config import Config
+
+    simthreading, simqueue, tp = poolprog.sim()
+    sched = D.Scheduler(D.make_chooser(case["sched"]), trace_files=[], max_steps=300000)
+    log = []
+    disp = S.SimpleJSONRPCDispatcher(config=Config(version=case["version"]))
+    disp.register_function(lambda tok: log.append(tok), "note")
+    box = {"outs": []}
+
+    def send(tok):
+        req = {"jsonrpc": "2.0", "method": "note", "params": [tok]} if case["version"] >= 2 else {"id": None, "method": "note", "params": [tok]}
+        box["outs"].append(disp._marshaled_dispatch(json.dumps(req)))
+
+    def main():
+        pool = tp.ThreadPool(case["max"], case["min"], timeout=5, logname="pool")
+        disp.set_notification_pool(pool)
+        if case["restart"]:
+            pool.start()
+            pool.stop()
+        for i in range(case["before"]):
+            send("b%d" % i)
+        pool.start()
+        pool.join()
+        if case["idle"]:
+            # long enough for every idle worker above min_threads to retire
+            D.sleep(60)
+        for i in range(case["after"]):
+            send("a%d" % i)
+        pool.join()
+        pool.stop()
+
+    try:
+        sched.run(main)
+    except (D.Deadlock, D.StepBudget) as ex:
+        fail("C04/notification-executions", "a notification that arrived %s is never executed: %s: %s (executed: %r)" % (
+            "after the pool's workers had gone idle" if case["idle"] else "after the backlog had been worked off", type(ex).__name__, str(ex)[:300], sorted(log)))
+    want = sorted(["b%d" % i for i in range(case["before"])] + ["a%d" % i for i in range(case["after"])])
+    if any(o != "" for o in box["outs"]):
+        fail("C04/notification-answered", "pooled notification answered %r" % (box["outs"],))
+    if sorted(log) != want:
+        fail("C04/notification-executions", "notifications sent before and after the start of the pool ran as %r, expected %r" % (sorted(log), want))
+    backlog = case["before"] > case["max"]
+    return Info(nt=backlog, classes=["pooled-prestart", "pool-max:%d" % case["max"], "backlog>max" if backlog else "backlog<=max",
+                                     "idle-retire" if case["idle"] else "no-idle", "after-restart" if case["restart"] else "before-first-start"],
+                key=(case["max"], case["min"], case["before"], case["idle"], case["after"], case["restart"], tuple(sched.choices)),
+                sample={"pool": [case["max"], case["min"]], "before": case["before"], "idle": case["idle"], "after": case["after"]})
+
+
 def pooled_sweep_cases(tier):
     for mx, mn in ((1, 0), (2, 0), (2, 1)):
         for batch in (False, True):
@@ -397,6 +464,10 @@ SUBS = [
         budget={"quick": 3000, "thorough": 60000}, shards={"quick": 12, "thorough": 16},
         time_cap={"quick": 100, "thorough": 1500},
         what="notifications on a (simulated) ThreadPool, request thread and workers interleaved by generated schedules"),
+    Sub("pooled-prestart", oracle_prestart, strategy=lambda tier: prestart_cases(),
+        budget={"quick": 1500, "thorough": 30000}, shards={"quick": 6, "thorough": 16},
+        time_cap={"quick": 100, "thorough": 1500},
+        what="notifications arriving while the notification pool is not running (a backlog above max_threads), then again after its workers went idle"),
     Sub("pooled-bounded", oracle_bounded, strategy=lambda tier: bounded_cases(),
         budget={"quick": 1500, "thorough": 30000}, shards={"quick": 6, "thorough": 16},
         time_cap={"quick": 100, "thorough": 1500},
